@@ -64,6 +64,8 @@ def cmd_run(args):
         j['pid'] = pid
         o = dict(getattr(mod, 'OPTS', {}))
         o.update(j.get('opts') or {})
+        if os.environ.get('VERIF_JOB_TIMEOUT'):
+            o['job_timeout'] = int(os.environ['VERIF_JOB_TIMEOUT'])
         j['opts'] = o
     results = _pool_run(jobs, nproc)
     results.sort(key=lambda r: (r['harness'], json.dumps(r['params'], sort_keys=True, default=str)))
@@ -125,7 +127,7 @@ def cmd_run(args):
 
     if args.verbose or os.environ.get('VERIF_TIMES'):
         for r in sorted(results, key=lambda r: -r['wall_s'])[:8]:
-            print('  slow job: %.1fs solver %.1fs paths %d  %s %s' % (r['wall_s'], r['solver_s'], r['paths'], r['harness'], json.dumps(r['params'], default=str)[:160]))
+            print('  slow job: %.1fs solver %.1fs paths %d  %s %s  [slowest query %.1fs: %s]' % (r['wall_s'], r['solver_s'], r['paths'], r['harness'], json.dumps(r['params'], default=str)[:160], r['max_query_s'], r['slowest']))
     wall = time.time() - t0
     ev = build_evidence(mod, pid, tier, seed, results, canaries, viol, known_hits, inconc, wall, nproc)
     os.makedirs(os.path.join(VERIF, 'evidence'), exist_ok=True)
